@@ -145,6 +145,8 @@ type spkInc struct {
 	// listed finding "node first sight": decisions taken before a node was first seen are stale
 	firstSights    int
 	svcProcessedAt map[string]int
+	cfgCallsAtQ     int
+	restartedSinceQ bool
 }
 
 type sworld struct {
@@ -174,6 +176,7 @@ type sworld struct {
 	prevEligible  map[string][]string
 	prevValid     bool
 	prevNonFirst  map[string]bool
+	cfgRelevantSinceQ bool
 	suspected     map[string]string // speaker -> node it wrongly suspects
 }
 
@@ -300,7 +303,7 @@ func (w *sworld) apiFingerprint() string {
 
 func (w *sworld) newSpeaker(node string, fresh bool) *spkInc {
 	w.nInc++
-	inc := &spkInc{node: node, id: w.nInc, view: map[string]bool{node: true}, fresh: fresh, svcProcessedAt: map[string]int{}}
+	inc := &spkInc{node: node, id: w.nInc, view: map[string]bool{node: true}, fresh: fresh, svcProcessedAt: map[string]int{}, cfgCallsAtQ: -1, restartedSinceQ: true}
 	inc.cache = simk8s.NewCache(w.srv, spkKinds)
 	inc.cl = &simk8s.Client{C: inc.cache}
 	inc.cl.Index = map[simk8s.Kind]map[string]func(client.Object) []string{
